@@ -690,6 +690,10 @@ namespace chaiscript {
               while (m_position.has_more() && char_in_alphabet(*m_position, detail::bin_alphabet)) {
                 ++m_position;
               }
+              while (m_position.has_more() && char_in_alphabet(*m_position, detail::int_suffix_alphabet)) {
+                ++m_position;
+              }
+
               return true;
             } else {
               --m_position;
